@@ -1520,3 +1520,39 @@ func (p *Prog) ReturnDesc(v ssa.Value) string {
 	descSubst = saved
 	return d
 }
+
+// Unconditional: the event is under no condition AND on every path: no test dominates it, and
+// no path from the entry of its function to a normal return avoids it.  (Dominating conditions
+// alone do not say the second: a `return` inside a nested `if` earlier in the function leaves
+// the statements after that `if` without any dominating condition, yet skips them.)
+func (e *Ev) Unconditional() bool {
+	return len(e.Guard) == 0 && everyPath(e.At())
+}
+
+func everyPath(in ssa.Instruction) bool {
+	fn := in.Parent()
+	if fn == nil || len(fn.Blocks) == 0 {
+		return false
+	}
+	target := in.Block()
+	seen := map[*ssa.BasicBlock]bool{}
+	var escapes func(b *ssa.BasicBlock) bool
+	escapes = func(b *ssa.BasicBlock) bool {
+		if b == target || seen[b] || b == fn.Recover {
+			return false
+		}
+		seen[b] = true
+		if len(b.Instrs) > 0 {
+			if _, ok := b.Instrs[len(b.Instrs)-1].(*ssa.Return); ok {
+				return true
+			}
+		}
+		for _, s := range b.Succs {
+			if escapes(s) {
+				return true
+			}
+		}
+		return false
+	}
+	return !escapes(fn.Blocks[0])
+}
